@@ -90,6 +90,9 @@ def gen_random(ctx):
         st = C.gen_state(rng, content, vals=(0, 1, 2, 4, 7))
         t = str(rng.choice([1, 2, 3, "1/2"]))
         qs += [["args", st, t], ["rhs", st, t], ["stoich", st, t]]
+        touched = C.Spec(content).touched_vars()
+        if touched:
+            qs.append(["stoichvar", st, t, rng.choice(touched)])
     # a Simulator override in the middle must leave the model's own answers alone
     st = C.gen_state(rng, content, vals=(5, 7, 9))
     qs += [["simupd", st[: rng.randint(1, len(st))]], ["init"], ["simy0"], ["args", None, "0"]]
